@@ -233,9 +233,18 @@ def r17_c(ctx):
         # first-match loop: allowed only if no element is a proper prefix of another when the match is a
         # prefix comparison of len(element) characters
         tvar = owner.target.id if isinstance(owner.target, ast.Name) else None
+        from .model import resolve_locals
+        fnode = owner
+        while fnode is not None and not isinstance(fnode, ast.FunctionDef):
+            fnode = getattr(fnode, '_parent', None)
+
+        def _res(e):
+            return resolve_locals(fnode, e) if fnode is not None else e
         prefix_match = tvar is not None and any(
-            isinstance(x, ast.Compare) and isinstance(x.ops[0], ast.Eq) and any(isinstance(y, ast.Name) and y.id == tvar for y in ast.walk(x.comparators[0]))
-            and 'len(%s)' % tvar in norm(x.left) for s in owner.body for x in ast.walk(s))
+            isinstance(x, ast.Compare) and isinstance(x.ops[0], (ast.Eq, ast.NotEq)) and (
+                (any(isinstance(y, ast.Name) and y.id == tvar for y in ast.walk(x.comparators[0])) and 'len(%s)' % tvar in norm(_res(x.left)))
+                or (any(isinstance(y, ast.Name) and y.id == tvar for y in ast.walk(x.left)) and 'len(%s)' % tvar in norm(_res(x.comparators[0]))))
+            for s in owner.body for x in ast.walk(s))
         rel = _prefix_related(v) if prefix_match else None
         ok = prefix_match and not rel
         rr.ob(ok, {'module': m.name, 'function': fdname, 'iteration': norm(it)[:60], 'use': 'first match',
